@@ -1,7 +1,12 @@
 //! C01 — Memfs behaves as a tree filesystem for every operation history
 use serde_json::{json, Value};
 
-use crate::{engine::*, fsdrive::*, fsgen::*, fstypes::Op};
+use std::collections::HashMap;
+use std::sync::Mutex;
+
+use rivia::prelude::*;
+
+use crate::{engine::*, fsapply::*, fsdrive::*, fsgen::*, fsmodel::Model, fstypes::*, refpath::*};
 
 pub const OPTS: StepOpts = StepOpts { model_compare: true, api_view: false };
 
@@ -51,8 +56,174 @@ pub fn check_history(c: &Ctx, specs: &[OpSpec], cfg: &GenCfg, opts: &StepOpts, k
     }
 }
 
+const NS: &[&str] = &["/a", "/b", "/a/a", "/a/b", "/b/a", "/b/b"];
+const NS_SMALL: &[&str] = &["/a", "/b", "/a/b"];
+
+fn bfs_ops(m: &Model, ns: &[&str]) -> Vec<Op> {
+    let s = |x: &str| x.to_string();
+    let mut v = vec![Op::Cwd];
+    let mut spellings: Vec<(String, String)> = vec![]; // (absolute, literal)
+    for p in ns {
+        spellings.push((s(p), s(p)));
+        if m.t.cwd != "/" && !m.through_link(p) {
+            let r = ref_relative(p, &m.t.cwd);
+            let r = if r.is_empty() { ".".to_string() } else { r };
+            if !m.through_link(&r) {
+                spellings.push((s(p), r));
+            }
+        }
+    }
+    for (_, lit) in &spellings {
+        let l = || lit.clone();
+        v.extend(vec![
+            Op::Mkfile(l()),
+            Op::MkdirP(l()),
+            Op::WriteAll(l(), b"1".to_vec()),
+            Op::WriteAll(l(), vec![]),
+            Op::AppendAll(l(), b"1".to_vec()),
+            Op::Remove(l()),
+            Op::RemoveAll(l()),
+            Op::SetCwd(l()),
+            Op::Exists(l()),
+            Op::IsDir(l()),
+            Op::IsFile(l()),
+            Op::IsSymlink(l()),
+            Op::IsSymlinkDir(l()),
+            Op::Mode(l()),
+            Op::ReadAll(l()),
+            Op::Paths(l()),
+            Op::AllPaths(l()),
+            Op::Readlink(l()),
+            Op::ReadlinkAbs(l()),
+            Op::Entry(l()),
+        ]);
+    }
+    v.push(Op::SetCwd(s("/")));
+    v.push(Op::AllPaths(s("/")));
+    for a in ns {
+        for b in ns.iter().chain(["/"].iter()) {
+            v.push(Op::Copy(s(a), s(b)));
+            v.push(Op::MoveP(s(a), s(b)));
+            if *b != "/" {
+                v.push(Op::Symlink(s(a), s(b)));
+            }
+        }
+        v.push(Op::Symlink(s(a), s("/")));
+        v.push(Op::Symlink(s(a), s("/nowhere")));
+    }
+    v
+}
+
+fn in_namespace(m: &Model, ns: &[&str]) -> bool {
+    m.t.nodes.iter().all(|(k, n)| {
+        (k == "/" || ns.contains(&k.as_str()))
+            && match n {
+                Node::File { data, .. } => data.len() <= 1,
+                _ => true,
+            }
+    })
+}
+
+/// Explicit-state exploration: every (reachable state, op) edge is executed on a fresh Memfs (the
+/// state is re-created by replaying its BFS path) and on the model; new states inside the namespace
+/// are expanded until no new state appears or the cap is hit.
+fn fixpoint(c: &Ctx, ns: &[&str], label: &str, cap: usize) -> bool {
+    let mut seen: HashMap<u64, ()> = HashMap::new();
+    let root = Model::fresh();
+    let key = |m: &Model| fp(&(format!("{:?}", m.t.nodes), &m.t.cwd, format!("{:?}", m.meta)));
+    seen.insert(key(&root), ());
+    let mut frontier: Vec<(Model, Vec<Op>)> = vec![(root, vec![])];
+    let mut states = 1usize;
+    let mut edges = 0u64;
+    let mut frontier_left = 0usize;
+    let mut depth = 0;
+    let mut complete = true;
+    while !frontier.is_empty() {
+        depth += 1;
+        let next: Mutex<Vec<(Model, Vec<Op>)>> = Mutex::new(vec![]);
+        let edge_count = std::sync::atomic::AtomicU64::new(0);
+        let fr = &frontier;
+        par_for(fr.len() as u64, 4, |i| {
+            let (model, path) = &fr[i as usize];
+            let ops = bfs_ops(model, ns);
+            let mut fps = vec![];
+            for op in &ops {
+                let mem = Memfs::new();
+                for p in path {
+                    let _ = apply(&mem, p);
+                }
+                let mut m2 = model.clone();
+                let mut full = path.clone();
+                full.push(op.clone());
+                if edge_count.load(std::sync::atomic::Ordering::Relaxed) % 64 == 0 {
+                    mark("ops", &serde_json::to_string(&full).unwrap());
+                } else {
+                    tick();
+                }
+                edge_count.fetch_add(1, std::sync::atomic::Ordering::Relaxed);
+                c.eval(1);
+                match step(&mem, &mut m2, op, &OPTS) {
+                    Ok(info) => {
+                        if !path.is_empty() && (info.out_err || op.paths().len() == 2) {
+                            fps.push(fp(&(format!("{:?}", model.t.nodes), format!("{:?}", op))));
+                        }
+                        // a link whose recorded kind depended on the (per-instance) iteration order of a
+                        // copy cannot be re-created faithfully by replaying the path: compared, not expanded
+                        let reproducible = !info.resynced && m2.meta.values().all(|l| l.created_kind.is_some());
+                        if op.is_mutator() && info.mutated && !reproducible {
+                            c.class("fixpoint:successor-not-reproducible(compared,not-expanded)");
+                        } else if op.is_mutator() && info.mutated && in_namespace(&m2, ns) {
+                            next.lock().unwrap().push((m2, full));
+                        } else if op.is_mutator() && info.mutated {
+                            c.class("fixpoint:successor-outside-namespace(compared,not-expanded)");
+                        }
+                    },
+                    Err(f) => {
+                        c.judge("ops", &full, Err(f.with_case("ops", serde_json::json!(full))));
+                    },
+                }
+            }
+            c.nontrivial_many(&mut fps);
+        });
+        edges += edge_count.load(std::sync::atomic::Ordering::Relaxed);
+        let mut nf = vec![];
+        for (m, p) in next.into_inner().unwrap() {
+            let k = key(&m);
+            if seen.contains_key(&k) {
+                continue;
+            }
+            if states >= cap {
+                frontier_left += 1;
+                complete = false;
+                continue;
+            }
+            seen.insert(k, ());
+            states += 1;
+            nf.push((m, p));
+        }
+        frontier = nf;
+        if c.saturated() {
+            complete = false;
+            break;
+        }
+    }
+    c.note(&format!("fixpoint_{}_states", label), states);
+    c.note(&format!("fixpoint_{}_transitions", label), edges);
+    c.note(&format!("fixpoint_{}_depth", label), depth);
+    c.note(&format!("fixpoint_{}_reached", label), complete);
+    c.note(&format!("fixpoint_{}_unexpanded_successors_at_cap", label), frontier_left);
+    c.class_n(&format!("fixpoint:{}:states", label), states as u64);
+    complete
+}
+
 pub fn run(c: &Ctx) {
-    c.set_rule("model-based histories: proptest-generated sequences of calls (every trait method incl. builders and handles) whose path selectors are resolved against the current reference-model state (existing dir/file/link, missing child, missing parent, below a file, root/cwd; 8 spellings: absolute, cwd-relative, './', doubled separators, 'x/../' detours, trailing '/.'), executed in lock step on Memfs and on a reference tree filesystem written from the trait docs; after every step the result (value or error kind) must be admitted by the model and the dump-derived tree (names, kinds, bytes, link targets, modes, owners, cwd) must equal the model's; failed single-target calls must leave the raw dump unchanged. Non-trivial = history with >=1 successful mutator and >=1 failing call, or a two-path op (copy/move/symlink); distinct by concrete op list.");
+    // small namespace: explored to the fixpoint (exhaustive); larger namespace: breadth-first up to a state cap
+    let closed = fixpoint(c, NS_SMALL, "small", 200_000);
+    fixpoint(c, NS, "large", c.tier.pick(1_200, 40_000));
+    if closed {
+        c.set_exhaustive(true);
+    }
+    c.set_rule("(a) reachability exploration, to the FIXPOINT over the namespace {/a,/b,/a/b} and breadth-first up to a state cap over {/a,/b}x{a,b} (file data \"\" or \"1\", links to every namespace path, the root and a missing path, cwd any directory): breadth-first from the fresh instance, every (state, op) edge for ~250 ops (creators, writers, removers, set_cwd, copy/move_p/symlink over all ordered pairs, all queries; absolute and cwd-relative spellings) executed on a Memfs re-created by replaying the state's BFS path and on the reference model, successors inside the namespace expanded until no new state appears (thorough) or the state cap (quick; evidence says whether the fixpoint was reached). (b) model-based histories: proptest-generated sequences of calls (every trait method incl. builders and handles) whose path selectors are resolved against the current reference-model state (existing dir/file/link, missing child, missing parent, below a file, root/cwd; 8 spellings: absolute, cwd-relative, './', doubled separators, 'x/../' detours, trailing '/.'), executed in lock step on Memfs and on a reference tree filesystem written from the trait docs; after every step the result (value or error kind) must be admitted by the model and the dump-derived tree (names, kinds, bytes, link targets, modes, owners, cwd) must equal the model's; failed single-target calls must leave the raw dump unchanged. Non-trivial = history with >=1 successful mutator and >=1 failing call, or a two-path op (copy/move/symlink); distinct by concrete op list.");
     c.assume("reference model rules: DESIGN.md appendix A; arguments traversing a link as an intermediate component are excluded by construction (counted)");
     c.assume("Memfs::verif_dump (hook H2) is a faithful copy of the internal indexes");
     let n = c.tier.pick(30_000, 300_000);
